@@ -354,6 +354,16 @@ func (b *Builder) Kind(t types.Type) abi.Kind {
 	panic("unsupported kind: " + t.String())
 }
 
+// align64 is the ABI alignment of 64-bit scalars (int64, float64 and the
+// parts of complex128) on the target: 8 unless the target says otherwise
+// (4 on 386).
+func (b *Builder) align64() uintptr {
+	if b.Align64 != 0 {
+		return b.Align64
+	}
+	return 8
+}
+
 func (b *Builder) Align(t types.Type) uintptr {
 	switch t := types.Unalias(t).(type) {
 	case *types.Basic:
@@ -367,17 +377,17 @@ func (b *Builder) Align(t types.Type) uintptr {
 		case types.Int32, types.Uint32:
 			return 4
 		case types.Int64, types.Uint64:
-			return 8
+			return b.align64()
 		case types.Int, types.Uint, types.Uintptr, types.UnsafePointer:
 			return b.PtrSize
 		case types.Float32:
 			return 4
 		case types.Float64:
-			return 8
+			return b.align64()
 		case types.Complex64:
 			return 4
 		case types.Complex128:
-			return 8
+			return b.align64()
 		case types.String:
 			return b.PtrSize
 		}
